@@ -31,7 +31,8 @@ TRUSTED = c01.TRUSTED
 
 def run(chk, model: SegmentModel = None):
     ix, cg = chk.ix, chk.cg
-    m = model or SegmentModel(ix, cg)
+    from ..segmodel import shared_model
+    m = model or shared_model(ix, cg)
     chk.trusted = TRUSTED
     chk.consult(m.segmenter, m.vr_builder, m.writer_init)
     for q in m.it.consulted:
